@@ -129,8 +129,10 @@ def run(ctx: Ctx):
             ctx.check(skip, "R16.b", f.key("skip-infinite"), "exactly the infinite singularities are skipped", f"remove_singularities iterates {av.show(cp[2])[:60]} with the filter {[av.show(c)[:60] for c in cp[4]]}: not every singularity, skipping exactly those with `is_infinite`", f.where())
             leaves = _branches(v)
             same = [c for c, x in leaves if x == ("sym", e)]
-            ret_same = any(any(k == ("not", cp) or (k[0] == "not" and av._unwrap_seq(k[1]) == cp) for k in c) for c in same)
-            ctx.check(ret_same, "R16.b", f.key("unchanged"), "no removable singularity: the expression itself is returned", "remove_singularities does not return the expression unchanged exactly when nothing is removable", f.where())
+            nothing_removable = lambda c: any(k == ("not", cp) or (k[0] == "not" and av._unwrap_seq(k[1]) == cp) for k in c)  # noqa: E731
+            ret_same = bool(same) and all(nothing_removable(c) for c in same)
+            other = [c for c in same if not nothing_removable(c)]
+            ctx.check(ret_same, "R16.b", f.key("unchanged"), "no removable singularity: the expression itself is returned", "remove_singularities does not return the expression unchanged exactly when nothing is removable" + (f" (it is also returned unchanged when {' and '.join(av.show(k)[:80] for k in other[0])})" if other else ""), f.where())
         else:
             ctx.undecided("R16.b", f.key("skip-infinite"), "the per-singularity conditionals are not built by a comprehension over the singularities; the filter is not judged", f.where())
     util.same_as_reference(ctx, "R16.b", "atoms.py", "Singularity.is_infinite", REF_IS_INFINITE, "", "infinite iff the limit contains oo / -oo", "Singularity.is_infinite changed: a finite but symbolic limit (e.g. 1/k) could be classified as infinite and left in the model, or an infinite one used as a replacement")
